@@ -27,9 +27,9 @@ Definition poly_mesh_ok (tbl : list (string * (bool * (nat * list (list nat)))))
                       (elem_to_polyhedron tbl casts nids (fst (fst e)) (snd (fst e)))
                       (Some (snd e))) elems.
 (* polyhedron volumes from the face data the implementation produced *)
-Definition poly_vol_ok (eabs erel : Q) (centroid : bool) (coords : list (v3 Q))
+Definition poly_vol_ok (eabs erel : Q) (local_origin centroid : bool) (coords : list (v3 Q))
            (elems : list (list nat * Q)) : bool :=
-  forallb (fun e => match poly_volume QOps centroid coords (fst e) with
+  forallb (fun e => match poly_volume QOps local_origin centroid coords (fst e) with
                     | Some v => close eabs erel v (snd e)
                     | None => false
                     end) elems.
